@@ -11,7 +11,7 @@ DIMS_OK = ("cols(lower_bounds) == cols(x0) and cols(upper_bounds) == cols(x0) an
 VALID_J = ("isfinite({P}) and isfinite({Q}) and {L} <= {P} and {P} < {Q} and {Q} <= {U} and (isnan({X}) or ({L} <= {X} and {X} <= {U})) "
            "and (isfinite({L}) == isfinite({U}))").format(L=L, U=U, P=P, Q=Q, X=X)
 # hard bounds next to the smallest normal float are treated by the code as zero: carved out of the 'raises only if invalid' direction
-DENORMAL_J = "(abs({L}) <= RM or abs({U}) <= RM) and isfinite({L}) and isfinite({U})".format(L=L, U=U)
+DENORMAL_J = "((abs({L}) <= RM and {L} != 0) or (abs({U}) <= RM and {U} != 0)) and isfinite({L}) and isfinite({U})".format(L=L, U=U)
 # plausible interval that does not survive being moved 0.1% of the hard range away from finite hard bounds (known finding:
 # such definitions are valid by the property statement but rejected with bads:StrictBounds)
 MARGIN_J = ("isfinite({L}) and isfinite({U}) and isfinite({P}) and isfinite({Q}) and "
